@@ -29,9 +29,10 @@ def new_check():
         PROP, pkg="find", props="Proofs.Props.C16", driver="drv_c16", lemma_files=LEMMAS, model_files=MODELS,
         trusted=["hand-written model lean/find/Model/Closest.lean (on Model/Find.lean, Model/Time.lean) tied to "
                  "FileSet.find_closest / __getitem__ by the correspondence run of this check (driver drv_c16: same template, "
-                 "population, timestamp, filters, exclusion; the returned file id / error class must be equal)",
-                 "which file carries the name get_filename(t) generates (exact-name short-cut) is supplied by the harness from "
-                 "its own rendering of the template (name formatting is C02's subject)",
+                 "population, timestamp, filters, exclusion; error class and covering / end-point distance of the returned file must be equal)",
+                 "which file carries the name get_filename(t) generates (exact-name short-cut, premise ExactOK) is supplied by the harness "
+                 "from its own rendering of the template; the rendering is compared with the real get_filename(t) on every probe and the "
+                 "named file's parsed coverage must contain t (name formatting / parsing themselves are C02: format, C02_start_roundtrip)",
                  "fsspec glob/isfile, numpy argmin over timedelta objects are modelled, not verified"],
         assumptions=["timestamps are given at the resolution of the file names (property text); other timestamps: model-vs-code only",
                      "templates as in C01; t +- sub-directory resolution must stay inside the datetime range (else OverflowError, agreed)",
